@@ -277,8 +277,12 @@ void StringDictionaryFMINDEX::build_ssa(uchar *text, size_t len,
   if (BWTsampling > 0) {
     uint samples = (len + 1) / BWTsampling + 1;
 
-    for (uint i = 0; i < samples; i++)
-      fm_index->suff_sample[i] = separators->rank1(fm_index->suff_sample[i]);
+    // Text position 'len' (the empty suffix; sampled when BWTsampling divides
+    // len) lies one past the last bit of 'separators'.
+    for (uint i = 0; i < samples; i++) {
+      size_t pos = fm_index->suff_sample[i];
+      fm_index->suff_sample[i] = separators->rank1(pos < len ? pos : len - 1);
+    }
   }
 }
 
